@@ -39,11 +39,11 @@ def classified : List (String × Bool) := [
   ("verit_contraction", true),
   ("verit_disj_pts", false),
   ("verit_distinct_elim", false),
-  ("verit_div_simplify", false),
+  ("verit_div_simplify", true),
   ("verit_eq_congruent", true),
   ("verit_eq_congruent_pred", false),
   ("verit_eq_reflexive", true),
-  ("verit_eq_simplify", false),
+  ("verit_eq_simplify", true),
   ("verit_eq_transitive", true),
   ("verit_equiv1", true),
   ("verit_equiv2", true),
@@ -122,7 +122,8 @@ theorem registry_classified : classified.map (·.1) = Gen.namesSorted := by deci
 theorem tier1_modelled : ∀ r ∈ Rule.all, (r.name, true) ∈ classified := by decide +kernel
 
 /-- … plus `verit_la_generic`, whose model (ModelLA.lean) works on parsed linear arithmetic -/
-theorem tier1_count : tier1.length = Rule.all.length + 4 ∧ ("verit_la_generic", true) ∈ classified
+theorem tier1_count : tier1.length = Rule.all.length + 6 ∧ ("verit_la_generic", true) ∈ classified
+    ∧ ("verit_div_simplify", true) ∈ classified ∧ ("verit_eq_simplify", true) ∈ classified
     ∧ ("verit_comp_simplify", true) ∈ classified ∧ ("verit_minus_simplify", true) ∈ classified
     ∧ ("verit_unary_minus_simplify", true) ∈ classified := by decide +kernel
 
@@ -249,6 +250,27 @@ example :
     ∧ Arith.unaryMinusSimplifyZ (.neg (.neg (.atom 0))) (.atom 0) = true
     ∧ Arith.unaryMinusSimplifyZ (.neg (.sub (.atom 0) (.atom 1))) (.atom 1) = false := by
   refine ⟨by decide, by decide, by decide, by decide, by decide, by decide, by decide⟩
+
+/-- div_simplify (division total with `x / 0 = 0`, as in holpy; `t / t = 1` only for a non-zero numeral)
+and eq_simplify (`t = t`, numerals of different value, `~(t = t)`): an accepted goal holds under every valuation -/
+theorem div_eq_simplify_sound :
+    (∀ (ρ : Nat → ℚ) l r, Arith.divSimplifyQ l r = true → Arith.evalA ρ l = Arith.evalA ρ r) ∧
+    (∀ (ρ : Nat → ℚ) neg a b rhs, Arith.eqSimplifyQ neg a b rhs = true →
+      ((if neg then ¬ Arith.evalA ρ a = Arith.evalA ρ b else Arith.evalA ρ a = Arith.evalA ρ b) ↔ rhs = .tt)) ∧
+    (∀ (ρ : Nat → ℤ) neg a b rhs, Arith.eqSimplifyZ neg a b rhs = true →
+      ((if neg then ¬ Arith.evalA ρ a = Arith.evalA ρ b else Arith.evalA ρ a = Arith.evalA ρ b) ↔ rhs = .tt)) :=
+  ⟨Arith.divSimplifyQ_sound, Arith.eqSimplifyQ_sound, Arith.eqSimplifyZ_sound⟩
+
+/-- non-vacuity: `3 / 3 = 1` and `x / 1 = x` accepted, `0 / 0 = 1` and `x / x = 1` rejected;
+`(2 = 3) <--> false` accepted, `(x = y) <--> false` rejected -/
+example :
+    Arith.divSimplifyQ (.div (.lit 3) (.lit 3)) (.lit 1) = true
+    ∧ Arith.divSimplifyQ (.div (.atom 0) (.lit 1)) (.atom 0) = true
+    ∧ Arith.divSimplifyQ (.div (.lit 0) (.lit 0)) (.lit 1) = false
+    ∧ Arith.divSimplifyQ (.div (.atom 0) (.atom 0)) (.lit 1) = false
+    ∧ Arith.eqSimplifyZ false (.lit 2) (.lit 3) .ff = true
+    ∧ Arith.eqSimplifyZ false (.atom 0) (.atom 1) .ff = false := by
+  refine ⟨by decide +kernel, by decide +kernel, by decide +kernel, by decide +kernel, by decide, by decide⟩
 
 /-! ### resolution -/
 
